@@ -239,6 +239,9 @@ func (z *Decimal) Parse(s string, base int) (d *Decimal, b int, err error) {
 	} else if err2 != io.EOF {
 		err = err2
 	}
+	if err != nil {
+		d = nil // as documented: no result if an error is reported
+	}
 
 	return
 }
